@@ -1,4 +1,5 @@
 import PyemvGen.Mod.Common
+import PyemvProps.C06
 import PyemvGen.Mod.mac_mac3
 namespace Pyemv.ModRefines
 open Pyemv Pyemv.Gen
@@ -8,5 +9,11 @@ theorem sm_generate_command_mac (sk c : Bytes) (l : Option Nat) : Gen.sm.generat
   simp only [mac_mac3, bind, Except.bind, pure, Except.pure]
   repeat (first | rfl | split)
   all_goals simp_all
+
+/-- **C06 about the translated source** -/
+theorem source_generate_command_mac (sk cmd : Bytes) (len : Option Nat) (hsk : sk.length = 16) :
+    Gen.sm.generate_command_mac sk cmd len =
+      .ok ((Spec.alg3 (sk.take 8) (sk.drop 8) (Spec.pad2 8 cmd)).take (len.getD 8)) := by
+  rw [sm_generate_command_mac]; exact C06.command_mac_eq_spec sk cmd len hsk
 
 end Pyemv.ModRefines
